@@ -174,10 +174,26 @@ class Facts:
     def __init__(self, ges=()):
         self.ges = list(ges)
         self._cache = {}
+        self.rewrites = {}      # symbol -> Lin: definitional equalities used to canonicalise forms
 
     def copy(self):
         f = Facts(self.ges)
+        f.rewrites = dict(self.rewrites)
+        if "__generated__" in f.rewrites:
+            f.rewrites["__generated__"] = set(f.rewrites["__generated__"])
         return f
+
+    def canon(self, l):
+        """l with the definitional equalities applied (e.g. len := k*bs + d)."""
+        l = lin(l)
+        if not self.rewrites:
+            return l
+        rw = {k: v for k, v in self.rewrites.items() if k != "__generated__"}
+        for _ in range(4):
+            if not (l.symbols() & set(rw)):
+                break
+            l = l.subst(rw)
+        return l
 
     def add_ge(self, l):
         l = lin(l)
@@ -186,6 +202,21 @@ class Facts:
         if l not in self.ges:
             self.ges.append(l)
             self._cache = {}
+            if l.degree() >= 2 or self.rewrites:
+                self._derive_product(l)
+
+    def _derive_product(self, l):
+        """co*x*y >= c > 0 over the integers with x >= 0 (or y >= 0) gives x >= 1 and y >= 1."""
+        lc = self.canon(l)
+        if len(lc.t) != 1 or lc.c >= 0:
+            return
+        (m, co), = lc.t
+        if co <= 0 or len(m) != 2:
+            return
+        x, y = Lin.sym(m[0]), Lin.sym(m[1])
+        if self.prove_ge(x) or self.prove_ge(y):
+            self.add_ge(x - 1)
+            self.add_ge(y - 1)
 
     def add_eq(self, l):
         self.add_ge(l)
